@@ -69,6 +69,7 @@ type rlOpts struct {
 	// Siblings: the message also holds required keys of both formats, a flattened object, a ruled timestamp and a
 	// unique array BEFORE the subject: whatever the compiler shares between fields of one kind must not leak into the subject
 	Siblings bool `json:"siblings"`
+	ZeroPrefixed bool `json:"zeroPrefixed"` // the enum declares its zero option explicitly, spelled with the prefix (COLOR_UNSPECIFIED)
 	AcroName bool `json:"acroName"` // the subject property is spelled subjectID (proto subject_id): the JSON name is the declared one
 }
 
@@ -368,7 +369,10 @@ func rlFileText(units []rlUnit, o rlOpts) string {
 	}
 	if usesEnum {
 		sb.WriteString("enum Color {\n")
-		if zeroNamed {
+		if o.ZeroPrefixed {
+			// ... also under its full name, as in a schema ported from protobuf
+			sb.WriteString("  option COLOR_UNSPECIFIED\n")
+		} else if zeroNamed {
 			// R "Enum": the zero value may be "explicitly included (as UNSPECIFIED)"; needed to name it in a rule
 			sb.WriteString("  option UNSPECIFIED\n")
 		}
